@@ -4,7 +4,7 @@ import itertools
 import z3
 
 from . import core, values
-from .core import ctx, OutOfSubset, PathEnd, CheckerError
+from .core import define_rec, ctx, OutOfSubset, PathEnd, CheckerError
 from .values import (Sym, SInt, SBool, SStr, SReal, SSeq, SV, ClassModel, mk_int, mk_bool, mk_str, truth,
                      as_int_term, as_str_term, as_bool_term, as_real_term, theory)
 
@@ -93,7 +93,7 @@ class VC:
         if isinstance(o, Sym):
             return o[k]
         if isinstance(k, SV):
-            k = k.resolve()
+            k = k.resolve_builtin()
         if isinstance(o, (list, tuple)) and isinstance(k, SInt):
             n = len(o)
             for i in range(n):
@@ -320,7 +320,7 @@ class VC:
         h = T.hd(s)
         body_c = z3.substitute(cond_t, (x, h))
         body_e = z3.substitute(elt_t, (x, h))
-        z3.RecAddDefinition(f, [s], z3.If(T.is_nil(s), T.nil,
+        define_rec(f, [s], z3.If(T.is_nil(s), T.nil,
                                            z3.If(body_c, T.cons(body_e, f(T.tl(s))), f(T.tl(s)))))
         res = SSeq(T, f(seq.t), 'list')
         hook = self.spec.comp_hooks.get(ordinal) if self.spec is not None else None
@@ -503,7 +503,7 @@ def summarize(fn, outer):
         sub.counter = dict(base_counter)
         for c in base_pc:
             sub.pc.append(c)
-            sub._feas.add(c)
+            sub._feas.add(core.abstract_nonlinear(c))
         r = fn()
         results.append((sub.pc[len(base_pc):], r))
         for k, v in sub.counter.items():
@@ -538,7 +538,16 @@ def m_isinstance(x, T):
         return False
     if isinstance(T, ClassModel):
         if isinstance(x, SV):
-            return ctx().branch(x.is_a(T.name), 'isinstance:' + T.name)
+            if x.known_class() is not None:
+                return T.name in x.T.ancestors(x.cls)
+            names = [n for n in x.T.concrete_subclasses(T.name) if n in x.possible()]
+            if not names:
+                return False
+            if x._inst and len(names) == len(x.possible()):
+                return True
+            r = ctx().branch(z3.Or([x.T.recog['is_C_' + n](x.t) for n in names]), 'isinstance:' + T.name)
+            x.narrow(names, r)
+            return r
         pyc = getattr(T, 'pyclass', None)
         if pyc is not None:
             return _b.isinstance(x, pyc)
@@ -581,9 +590,9 @@ def m_isinstance(x, T):
 
 def m_len(x):
     if isinstance(x, SV):
-        r = x.resolve()
+        r = x.resolve_builtin()
         if r is x:
-            m = x.T.find_method(x.cls, '__len__')
+            m = x.dispatch(lambda cn: x.T.find_method(cn, '__len__'), '__len__')
             if m is None:
                 raise TypeError('object has no len()')
             return m(x)
@@ -609,9 +618,9 @@ def m_str(x=''):
     if isinstance(x, (SStr, str)):
         return x
     if isinstance(x, SV):
-        r = x.resolve()
+        r = x.resolve_builtin()
         if r is x:
-            m = x.T.find_method(x.cls, '__str__')
+            m = x.dispatch(lambda cn: x.T.find_method(cn, '__str__'), '__str__')
             if m is None:
                 raise OutOfSubset('str() of model class %s has no model' % x.cls)
             return m(x)
@@ -641,7 +650,7 @@ def m_repr(x):
 
 def m_int(x=0, *a):
     if isinstance(x, SV):
-        x = x.resolve()
+        x = x.resolve_builtin()
     if isinstance(x, SInt) or (isinstance(x, int) and not isinstance(x, bool)):
         return x
     if isinstance(x, SBool):
@@ -662,7 +671,7 @@ def m_int(x=0, *a):
 
 def m_float(x=0.0):
     if isinstance(x, SV):
-        x = x.resolve()
+        x = x.resolve_builtin()
     if isinstance(x, SReal) or isinstance(x, float):
         return x
     if isinstance(x, (SInt, SBool)):
@@ -679,7 +688,7 @@ def m_float(x=0.0):
 
 def m_abs(x):
     if isinstance(x, SV):
-        x = x.resolve()
+        x = x.resolve_builtin()
     return _b.abs(x)
 
 
@@ -771,7 +780,7 @@ def _anyv(T):
     if f is None:
         f = z3.RecFunction('anyv', T.VL, z3.BoolSort())
         s = z3.Const('s!any', T.VL)
-        z3.RecAddDefinition(f, [s], z3.If(T.is_nil(s), False, z3.Or(truthy_term(T, T.hd(s)), f(T.tl(s)))))
+        define_rec(f, [s], z3.If(T.is_nil(s), False, z3.Or(truthy_term(T, T.hd(s)), f(T.tl(s)))))
         T._anyv = f
     return f
 
@@ -781,7 +790,7 @@ def _allv(T):
     if f is None:
         f = z3.RecFunction('allv', T.VL, z3.BoolSort())
         s = z3.Const('s!all', T.VL)
-        z3.RecAddDefinition(f, [s], z3.If(T.is_nil(s), True, z3.And(truthy_term(T, T.hd(s)), f(T.tl(s)))))
+        define_rec(f, [s], z3.If(T.is_nil(s), True, z3.And(truthy_term(T, T.hd(s)), f(T.tl(s)))))
         T._allv = f
     return f
 
@@ -881,9 +890,9 @@ def m_hasattr(o, name):
 
 def m_hash(x):
     if isinstance(x, SV):
-        r = x.resolve()
+        r = x.resolve_builtin()
         if r is x:
-            m = x.T.find_method(x.cls, '__hash__')
+            m = x.dispatch(lambda cn: x.T.find_method(cn, '__hash__'), '__hash__')
             if m is None:
                 raise OutOfSubset('hash() of model class %s has no model' % x.cls)
             return m(x)
@@ -961,7 +970,7 @@ def m_round(x, *a):
 
 def m_floor(x):
     if isinstance(x, SV):
-        x = x.resolve()
+        x = x.resolve_builtin()
     if isinstance(x, (SInt, int)):
         return x
     if isinstance(x, SReal):
